@@ -11,6 +11,16 @@ on the same engine: the first execution compiles (cache miss), the second one
 re-uses the cached Compiled and goes through
 ``CursorResultMetaData._adapt_to_context`` with its own label objects.
 
+A second family ("perm" shards) covers a compiled-cache hit whose column objects
+already sit in the cached key map at other positions: statements over 2-3 anonymous
+aliases (or 2-3 same-structured anonymous subqueries) of one table have one cache key
+whichever object plays which role; every ordered pair (for 2 objects and in the
+thorough tier also every ordered triple) of role permutations is executed on an
+emptied compiled cache, and for every execution row._mapping[col], mappings()[col],
+result.columns(c1, c2) for every ordered pair of column objects, result.scalars(col)
+and the unique string keys are compared with the positional truth known from
+construction.
+
 Oracle, per result row:
 
 * positional truth: the row equals the tuple of expected values (known from
@@ -41,6 +51,10 @@ Mutations caught (private copy, each gives VIOLATION lines with new signatures):
         -> label_length=6 tpc: row._mapping['_1'] returns the last column
   M6 compiler.py visit_label: label object left out of the result-map targets
         -> row._mapping[<Label>] NoSuchColumnError
+  M7 cursor.py _adapt_to_context: merge precedence swapped (``{new: rec} | self._keymap``)
+        -> perm family only: executions [[0, 1], [1, 0]]: row._mapping[<column 0>] returns column 1's value
+  M8 cursor.py _adapt_to_context: invoked-statement columns already present in the cached keymap are skipped
+        -> perm family only, same signature class
   (M5 cursor.py _create_description_match_map keeping only the first column's objects on a name
    conflict was NOT caught by the first version; it led to the "mismatch" statement form, which then
    exposed G4 on the unchanged tree; M5 itself turns a wrong value into NoSuchColumnError and is not a
@@ -69,7 +83,9 @@ META = dict(
     "raw text) is executed twice from freshly built constructs (compiled-cache miss, then hit through _adapt_to_context). For every row: "
     "positional values equal the values known from construction; row._mapping[e] for every selected expression object; the inner expressions "
     "of wrapped statements; and every string that is a result key, a cursor.description name, a name/key/label/table_column name of a "
-    "selected expression, or one of 14 fixed probes. All cells of a row are pairwise different numbers, so any wrong column is visible.",
+    "selected expression, or one of 14 fixed probes. All cells of a row are pairwise different numbers, so any wrong column is visible. "
+    "Cache hits whose column objects occur in the cached key map at other positions are covered by the permutation family (anonymous aliases / "
+    "subqueries in swapped roles, all ordered pairs / triples of role permutations on one compiled cache).",
     level_note="Trusted: the 60-line oracle in check_case (positions by keys(), by cursor.description and by the names each expression bears) and "
     "SQLite. Conservative errors are accepted (an 'ambiguous' error when several selected expressions bear the name or keys() has duplicates; "
     "NoSuchColumnError for names that are not result keys); what is never accepted is a value that belongs to another column, an exception "
@@ -79,8 +95,8 @@ META = dict(
     rule="case = (label_length, label style, statement form, selection); evaluated on 2 rows x 2 executions; non-trivial = at least two selected "
     "expressions bear a common name (collision exercised)",
     assumptions=["all cell values of a joined row are pairwise distinct (by construction)", "SQLite returns the columns in SELECT-list order"],
-    bounds=dict(quick="all selections of <=3 of 12 expressions (1884) plus all selections of 4 of a 5-expression sub-pool (625) x 3 styles x label_length None/6 x 8 forms",
-                thorough="all selections of <=4 of 12 expressions (22620) x 3 styles x 8 forms at label_length None; <=3 plus the 4-of-5 sub-pool (2509) at label_length 6 and 10"),
+    bounds=dict(quick="all selections of <=3 of 12 expressions (1884) plus all selections of 4 of a 5-expression sub-pool (625) x 3 styles x label_length None/6 x 8 forms; cache-hit permutation family: 2 kinds x 2-3 anonymous FROM objects x 3 styles, all ordered pairs of role permutations (+ all triples for 2 objects)",
+                thorough="all selections of <=4 of 12 expressions (22620) x 3 styles x 8 forms at label_length None; <=3 plus the 4-of-5 sub-pool (2509) at label_length 6 and 10; cache-hit permutation family: all ordered pairs and triples of role permutations, label_length None/6/10"),
 )
 
 # ------------------------------------------------------------------ world
@@ -145,6 +161,8 @@ def engine_for(ll):
             c.execute(alpha.insert(), dict(id=k, x=100 * k + 1, y=100 * k + 2))
             c.execute(bravo.insert(), dict(id=10 + k, aid=k, x=100 * k + 21, y=100 * k + 22))
             c.execute(gamma.insert(), dict(id=20 + k, bid=10 + k, x=100 * k + 31))
+        for k in (1, 2, 3):
+            c.execute(sa.text("insert into node (id, v, w) values (:id, :v, :w)"), dict(id=k, v=1000 * k + 1, w=1000 * k + 2))
         c.commit()
         _ENGINES[ll] = e = (e, c)
     return e
@@ -437,6 +455,134 @@ def check_case(sel, style, wrapper, ll, rec=None):
 SUBPOOL4 = (0, 1, 2, 3, 5)  # three same-named columns, a fourth name, an expression with an anonymous bind
 
 
+# ------------------------------------------------------------------ cache hit with permuted column objects
+#
+# Statements over n anonymous aliases (or n same-structured anonymous subqueries) of one table have one
+# cache key whichever alias object plays which role.  Executing stmt(perm1) and then stmt(perm2) on one
+# compiled cache makes the second execution a cache hit for a *different* statement whose column objects
+# already occur in the cached key map at *other* positions: CursorResultMetaData._adapt_to_context must
+# let the invoked statement's columns win.
+
+node = sa.Table("node", metadata, sa.Column("id", sa.Integer, primary_key=True), sa.Column("v", sa.Integer), sa.Column("w", sa.Integer))
+NODE_ROWS = (1, 2, 3)
+PERM_FAMILIES = ("alias", "subquery")
+
+
+def _node_value(col, k):
+    return {"id": k, "v": 1000 * k + 1, "w": 1000 * k + 2}[col]
+
+
+def perm_froms(family, n):
+    """n anonymous FROM objects over ``node``, made once per sequence and re-used in every statement"""
+    if family == "alias":
+        return [node.alias() for _ in range(n)]
+    return [sa.select(node.c.id, node.c.v, node.c.w).where(node.c.id > 0).subquery() for _ in range(n)]
+
+
+def perm_stmt(froms, perm, style):
+    """role i (joined row with id i+1) is played by froms[perm[i]]; -> (statement, column objects, expected row)"""
+    roles = [froms[j] for j in perm]
+    n = len(roles)
+    cols = [r.c.v for r in roles] + [roles[0].c.w, roles[-1].c.w]
+    expected = tuple([_node_value("v", i + 1) for i in range(n)] + [_node_value("w", 1), _node_value("w", n)])
+    j = roles[0]
+    for a, b in zip(roles, roles[1:]):
+        j = j.join(b, b.c.id == a.c.id + 1)
+    stmt = sa.select(*cols).select_from(j).where(roles[0].c.id == 1).set_label_style(STYLES[style])
+    return stmt, cols, expected
+
+
+def check_perm_sequence(family, n, style, perms, ll=None, rec=None):
+    """execute stmt(perms[0]), stmt(perms[1]), ... on an emptied compiled cache; every execution is checked,
+    the 2nd.. ones are the cache hits with permuted column objects.  -> list of (kind, detail)"""
+    eng, conn = engine_for(ll)
+    eng.clear_compiled_cache()
+    froms = perm_froms(family, n)
+    problems = []
+    for step, perm in enumerate(perms):
+        stmt, cols, expected = perm_stmt(froms, perm, style)
+        tag = "execution %d (roles played by froms%s)" % (step + 1, list(perm))
+
+        def run():
+            return conn.execute(stmt)
+
+        with warnings.catch_warnings():
+            warnings.simplefilter("ignore")
+            r = run()
+            hit = r.context.cache_hit is conn.dialect.CACHE_HIT
+            keys = list(r.keys())
+            rows = r.all()
+            if rec is not None:
+                rec.count("perm_executions_cache_hit" if hit else "perm_executions_cache_miss")
+            if step > 0 and not hit:
+                problems.append(("perm-cache", "%s: expected a compiled cache hit (same cache key), got a miss" % tag))
+            if len(rows) != 1 or tuple(rows[0]) != expected:
+                problems.append(("perm-positional", "%s: rows %r, expected [%r]" % (tag, [tuple(x) for x in rows], expected)))
+                continue
+            row = rows[0]
+            distinct = []
+            for i, c in enumerate(cols):
+                got = _lookup(row, c)
+                if rec is not None:
+                    rec.outcome(("perm-obj", hit, got[0]))
+                if got != ("val", expected[i]):
+                    problems.append(("perm-object-key", "%s: row._mapping[<column %d of the executed statement>] -> %r, value at that position is %r (row %r, keys %r)"
+                                     % (tag, i, got, expected[i], tuple(row), keys)))
+                if not any(c is d for d, _ in distinct):
+                    distinct.append((c, i))
+            # mappings(): the same lookups through RowMapping
+            m = run().mappings().all()[0]
+            for i, c in enumerate(cols):
+                try:
+                    got = ("val", m[c])
+                except Exception as e:  # noqa: BLE001
+                    got = ("exc", type(e).__name__)
+                if got != ("val", expected[i]):
+                    problems.append(("perm-mappings", "%s: mappings()[<column %d>] -> %r, expected %r" % (tag, i, got, expected[i])))
+            # columns(): every ordered pair of distinct column objects, and scalars(col)
+            for (c1, i1), (c2, i2) in itertools.permutations(distinct, 2):
+                try:
+                    got = [tuple(x) for x in run().columns(c1, c2).all()]
+                except Exception as e:  # noqa: BLE001
+                    got = type(e).__name__
+                if rec is not None:
+                    rec.outcome(("perm-columns", hit, got == [(expected[i1], expected[i2])]))
+                if got != [(expected[i1], expected[i2])]:
+                    problems.append(("perm-columns", "%s: result.columns(<column %d>, <column %d>).all() -> %r, expected [%r]"
+                                     % (tag, i1, i2, got, (expected[i1], expected[i2]))))
+            for c, i in distinct:
+                try:
+                    got = run().scalars(c).all()
+                except Exception as e:  # noqa: BLE001
+                    got = type(e).__name__
+                if got != [expected[i]]:
+                    problems.append(("perm-scalars", "%s: result.scalars(<column %d>).all() -> %r, expected [%r]" % (tag, i, got, expected[i])))
+            for i, k in enumerate(keys):
+                if keys.count(k) == 1 and _lookup(row, k) != ("val", expected[i]):
+                    problems.append(("perm-string-key", "%s: row._mapping[%r] -> %r, expected %r" % (tag, k, _lookup(row, k), expected[i])))
+    return problems
+
+
+def perm_sequences(n, tier):
+    perms = list(itertools.permutations(range(n)))
+    yield from itertools.product(perms, repeat=2)
+    if n == 2 or tier == "thorough":
+        yield from itertools.product(perms, repeat=3)
+
+
+def run_perm_shard(shard, tier, rec):
+    _, family, n, style, ll = shard
+    for seq in perm_sequences(n, tier):
+        res = check_perm_sequence(family, n, style, seq, ll, rec)
+        rec.case(("perm", family, n, style, ll, seq), nontrivial=len(set(seq)) > 1)
+        if len(set(seq)) > 1:
+            rec.sample(dict(family="permuted " + family, n=n, style=style, sequence=[list(x) for x in seq]), limit=1)
+        for kind, detail in res:
+            rec.violation("%s: %d anonymous %s objects, style=%s label_length=%s, executions %s: %s" % (kind, n, family, style, ll, [list(x) for x in seq], detail),
+                          detail, dict(perm=True, family=family, n=n, style=style, ll=ll, seq=[list(x) for x in seq]), kind=(kind, detail.split(":")[0]))
+
+
+
 def selections(maxlen, npool):
     for n in range(1, maxlen + 1):
         yield from itertools.product(range(npool), repeat=n)
@@ -461,10 +607,17 @@ def shards(tier, seed):
                 parts = 8 if (tier == "thorough" and ll is None) else 1
                 for p in range(parts):
                     out.append((ll, style, w, p, parts))
+    for family in PERM_FAMILIES:
+        for n in (2, 3):
+            for style in STYLES:
+                for ll in ((None,) if tier == "quick" else LABEL_LENGTHS):
+                    out.append(("perm", family, n, style, ll))
     return out
 
 
 def run_shard(shard, tier, rec):
+    if shard[0] == "perm":
+        return run_perm_shard(shard, tier, rec)
     ll, style, wrapper, p, parts = shard
     maxlen = 4 if (tier == "thorough" and ll is None) else 3
     for idx, sel in enumerate(selections(maxlen, len(POOL))):
@@ -490,6 +643,11 @@ def run_shard(shard, tier, rec):
 
 
 def replay(case):
+    if case.get("perm"):
+        seq = [tuple(x) for x in case["seq"]]
+        res = check_perm_sequence(case["family"], case["n"], case["style"], seq, case["ll"])
+        return [("%s: %d anonymous %s objects, style=%s label_length=%s, executions %s: %s" % (k, case["n"], case["family"], case["style"], case["ll"], [list(x) for x in seq], d), d)
+                for k, d in res]
     sel = tuple(case["sel"])
     res = check_case(sel, case["style"], case["wrapper"], case["ll"]) or []
     out = []
